@@ -15,6 +15,8 @@ import (
 	"k8s.io/apimachinery/pkg/api/resource"
 	metav1 "k8s.io/apimachinery/pkg/apis/meta/v1"
 	"k8s.io/apimachinery/pkg/runtime"
+	"k8s.io/client-go/kubernetes/scheme"
+	"sigs.k8s.io/controller-runtime/pkg/client/fake"
 	"sigs.k8s.io/controller-runtime/pkg/webhook/admission"
 
 	"github.com/koordinator-sh/koordinator/pkg/features"
@@ -38,6 +40,7 @@ type c13hCase struct {
 	op, sub, res                              int
 	hasObj, hasOld                            bool
 	delOld, delNew, finalizers, statusOnly    bool
+	oldFinalizers                             bool
 	gate                                      bool
 	newPod, oldPod                            *corev1.Pod // as generated; the request carries their JSON
 }
@@ -68,12 +71,15 @@ func c13hRun(h *vHarness, t *testing.T, handler *PodValidatingHandler, c *c13hCa
 	if c.finalizers {
 		c.newPod.Finalizers = []string{"example.com/c13"}
 	}
+	if c.oldFinalizers {
+		c.oldPod.Finalizers = []string{"example.com/c13", "example.com/c13-b"}
+	}
 	rawNew, decNew := c13hJSON(t, c.newPod)
 	rawOld, decOld := c13hJSON(t, c.oldPod)
 	h.Op("pod 0 %s", c13EncPod(decNew))
 	h.Op("pod 1 %s", c13EncPod(decOld))
-	h.Op("hvalidate %d %d %d %d %d %d %d %d %d %d", c.op, c.sub, vB(c.res == 0), vB(c.hasObj), vB(c.hasOld),
-		vB(c.delOld), vB(c.delNew), vB(c.finalizers), vB(c.statusOnly), vB(c.gate))
+	h.Op("hvalidate %d %d %d %d %d %d %d %d %d %d %d", c.op, c.sub, vB(c.res == 0), vB(c.hasObj), vB(c.hasOld),
+		vB(c.delOld), vB(c.delNew), vB(c.finalizers), vB(c.oldFinalizers), vB(c.statusOnly), vB(c.gate))
 
 	req := admission.Request{AdmissionRequest: admissionv1.AdmissionRequest{
 		Resource:    metav1.GroupVersionResource{Group: "", Version: "v1", Resource: c13hResourceNames[c.res]},
@@ -110,9 +116,7 @@ func c13hRun(h *vHarness, t *testing.T, handler *PodValidatingHandler, c *c13hCa
 	h.Tag(fmt.Sprintf("h:sub:%s/res:%s", c13hSubResources[c.sub], c13hResourceNames[c.res]))
 	h.Tag(fmt.Sprintf("h:obj%d/old%d", vB(c.hasObj), vB(c.hasOld)))
 	h.Tag(fmt.Sprintf("h:verdict:%v", allowed))
-	if c.finalizers {
-		h.Tag("h:finalizers")
-	}
+	h.Tag(fmt.Sprintf("h:finalizers:old%d/new%d", vB(c.oldFinalizers), vB(c.finalizers)))
 	if c.statusOnly {
 		h.Tag("h:status-only")
 	}
@@ -167,7 +171,8 @@ func c13hRun(h *vHarness, t *testing.T, handler *PodValidatingHandler, c *c13hCa
 }
 
 func c13hHandler() *PodValidatingHandler {
-	return makeTestHandler() // the package's own fixture: fake client, decoder, informer cache
+	// as the direct harness: a fake client without objects and a decoder over the client-go scheme
+	return &PodValidatingHandler{Client: fake.NewClientBuilder().Build(), Decoder: admission.NewDecoder(scheme.Scheme)}
 }
 
 func TestVerifC13ValidatingHandle(t *testing.T) {
@@ -206,6 +211,7 @@ func TestVerifC13ValidatingHandle(t *testing.T) {
 			c.delOld = true
 		}
 		c.finalizers = r.Chance(1, 4)
+		c.oldFinalizers = r.Chance(1, 3) // old yes / new no = the removal of a finalizer
 		c.gate = r.Chance(1, 7)
 		// what the request carries: the normal shape of the operation, rarely a degenerate one
 		switch c.op {
@@ -276,10 +282,11 @@ func TestVerifC13ValidatingHandleExhaustive(t *testing.T) {
 					for _, hasOld := range []bool{true, false} {
 						for _, delOld := range []bool{false, true} {
 							for _, delNew := range []bool{false, true} {
-								for _, fin := range []bool{false, true} {
+								for finc := 0; finc < 4; finc++ {
+									fin, ofin := finc&1 != 0, finc&2 != 0
 									for _, ch := range changes {
 										for _, gate := range []bool{false, true} {
-											if gate && (ch.name != "same" || fin) {
+											if gate && (ch.name != "same" || finc != 0) {
 												continue // the gate only concerns the sub-priority label, which no change kind touches: keep one slice
 											}
 											r := h.Begin(idx)
@@ -288,7 +295,7 @@ func TestVerifC13ValidatingHandleExhaustive(t *testing.T) {
 												continue
 											}
 											c := &c13hCase{op: op, sub: sub, res: res, hasObj: hasObj, hasOld: hasOld, delOld: delOld, delNew: delNew,
-												finalizers: fin, gate: gate, newPod: ch.new(), oldPod: ch.old()}
+												finalizers: fin, oldFinalizers: ofin, gate: gate, newPod: ch.new(), oldPod: ch.old()}
 											if ch.name == "status-only" {
 												c.statusOnly = true
 												c.oldPod.Status.Phase = corev1.PodPending
@@ -307,7 +314,7 @@ func TestVerifC13ValidatingHandleExhaustive(t *testing.T) {
 			}
 		}
 	}
-	h.Extra("exhaustive", fmt.Sprintf("4 operations x 3 sub-resources x 2 resources x object x old object x deletionTimestamp old x new x finalizers x 8 update kinds (+ gate slice): %d cases", idx))
+	h.Extra("exhaustive", fmt.Sprintf("4 operations x 3 sub-resources x 2 resources x object x old object x deletionTimestamp old x new x finalizers on new x on old x 8 update kinds (+ gate slice): %d cases", idx))
 	h.Close("exhaustive enumeration of the validating entry point's dispatch: operation x sub-resource x resource x object / old object present x " +
 		"deletionTimestamp on old / new x finalizers x update kind (same, status only, 4 QoS changes, 2 priority-class changes); non-trivial as in the random stream")
 }
